@@ -34,7 +34,7 @@ CASE_TIMEOUT = {'quick': 400, 'thorough': 1800}
 _cnt = {'_fit': 0, '_prepare': 0}
 LEARNERS = ['ITML', 'MMC', 'SDML']
 BETAS = [0, 0.5, 1, 2, 1000]
-RATES = [0, 0.2, 0.5, 0.8, 1]
+RATES = [0, 0.2, 0.5, 0.8, 1, 1e-300, 1e-17]
 
 
 def setup_worker(tier=None):
